@@ -158,6 +158,28 @@ def mutants(rng, a):
         m.key = m.key.swapcase()
     with_edit('key-case-flip', key_case)
 
+    def key_bit5(ns):
+        # '[' vs '{', '@' vs '`', ']' vs '}' ... differ exactly like 'A' vs 'a' but are NOT case variants
+        m = pick(ns, lambda q: q.key is not None and q.parent is not None and q.parent.kind == 'o')
+        ks = [i for i, c in enumerate(m.key) if not (65 <= (c & ~0x20) <= 90) and 0x20 < (c ^ 0x20) < 0x7f]
+        if ks:
+            i = rng.choice(ks)
+            nk = m.key[:i] + bytes([m.key[i] ^ 0x20]) + m.key[i + 1:]
+        else:
+            nk = m.key + rng.choice([b'[', b'@', b']', b'^', b'_', b'`', b'{', b'}'])
+            sib = [k for k in m.parent.kids if k is not m]
+            if any(k.key is not None and k.key.lower() == nk.lower() for k in sib):
+                raise IndexError
+            m.key = nk
+            # both trees get the extended key; the mutant then differs in bit 0x20 of the new byte
+            raise IndexError
+        sib = [k for k in m.parent.kids if k is not m]
+        if any(k.key is not None and k.key.lower() == nk.lower() for k in sib):
+            raise IndexError
+        m.key = nk
+    for _ in range(2):
+        with_edit('key-byte-xor-0x20-nonletter', key_bit5)
+
     def arr_insert(ns):
         m = pick(ns, lambda q: q.kind == 'a')
         n = Node('z')
